@@ -72,6 +72,9 @@ type Options struct {
 	Lock                                                             string
 }
 
+// currentProperty: the property whose check is running (type blocks apply only to the properties they are tagged with)
+var currentProperty string
+
 func main() {
 	if len(os.Args) < 2 {
 		fmt.Fprintln(os.Stderr, "usage: govc check|dump|replay ...")
@@ -177,6 +180,7 @@ func runCheck(o *Options) int {
 		os.MkdirAll(o.WorkDir, 0o755)
 	}
 	cr := &checkRun{o: o, prog: prog, assumptions: map[string]bool{}}
+	currentProperty = o.Property
 	// contracts of this property
 	var cs []*Contract
 	filter := map[string]bool{}
